@@ -82,6 +82,12 @@ def pool_array(aid):
         return _mk(["k"], [[0.0, 1.0, 2.0]], ["f"], "f", 10, {"units": "m"}, {"k": {"units": "m", "offset": 7}})
     if aid == "A11":     # the same with int labels, next to an ordinary axis
         return _mk(["m", "x"], [[0, 1], XL], ["i", "i"], "i", 11, {}, {"m": {"long_name": "member"}})
+    if aid == "A12":     # declares a missing value: written as the variable's fill value - of THIS variable only
+        return _mk(["x"], [XL], ["i"], "f", 12, {"missing_value": -999.0, "units": "mm"})
+    if aid == "A13":     # an integer variable that legitimately holds the number another variable declares as missing
+        a = _mk(["x"], [XL], ["i"], "i", 13, {"what": "counts"})
+        a.values[0] = -999
+        return a
     raise KeyError(aid)
 
 
@@ -90,7 +96,8 @@ HAS_STR = {"A1": True, "A5": True, "A6": True, "A8": True}     # str labels or v
 DATASETS = {"DS1": (["a:A1", "b:A2", "s:A4"], {"title": "T", "ver": 2, "hist": [1.5, 2.5]}),
             "DS2": (["c:A3", "d:A9"], {"title": "numeric"}),
             "DS3": (["v:A6", "u:A5"], {}),
-            "DS4": (["p:A10", "q:A11", "b:A2"], {"title": "index-like axes"})}
+            "DS4": (["p:A10", "q:A11", "b:A2"], {"title": "index-like axes"}),
+            "DS5": (["fm:A12", "fn:A13", "g:A8"], {"title": "missing value declared by the first variable only"})}
 
 
 def pool_dataset(did):
@@ -256,6 +263,10 @@ def compare_var(got, rv, ref, what):
         return "{}: dtype kind {} expected {}".format(what, got.values.dtype, rv["values"].dtype)
     ga = {k: py(v) for k, v in dict(got.attrs).items()}
     wa = {k: py(v) for k, v in rv["attrs"].items()}
+    # a variable that declares missing_value is created with that fill value, which netCDF exposes as the attribute _FillValue on reading:
+    # that one extra entry, equal to the declared value, is the file format's echo of the same metadata and is accepted
+    if "_FillValue" in ga and "_FillValue" not in wa and "missing_value" in wa and common.same_scalar(ga["_FillValue"], wa["missing_value"]):
+        ga = {k: v for k, v in ga.items() if k != "_FillValue"}
     if common.freeze(ga) != common.freeze(wa):
         return "{}: variable metadata {} expected {}".format(what, ga, wa)
     return None
